@@ -191,7 +191,7 @@ func (k *Case) runOrder() (out string) {
 				az.AccountID == acc.ID && az.Status == acme.StatusPending && !(wild && chs.String() != "d" && chs.String() != ""):
 			case id.T != "dns" && strings.HasPrefix(id.V, "*.") && string(az.Identifier.Type) == id.T && az.Wildcard &&
 				az.Identifier.Value == id.V[2:] && az.AccountID == acc.ID && az.Status == acme.StatusPending:
-				// C13-F4: the `*.` was trimmed from an identifier that is not a dns name
+				// C13-F4 (fixed in 77ebdfa): the `*.` was trimmed from an identifier that is not a dns name
 				trimmed = true
 			default:
 				viol = " VIOL:identifier-without-own-authorization"
@@ -264,7 +264,7 @@ func cornerOrd() []*Case {
 		{Kind: "ord", En: "hdt", IDs: []ID{d("a.example.com"), d("A.Example.COM"), d("a.example.com")}},
 		{Kind: "ord", En: "hdt", IDs: []ID{{"ip", "10.0.0.1"}, {"ip", "::ffff:10.0.0.1"}, d("host.local")}},
 		{Kind: "ord", En: "hdta", IDs: []ID{{"permanent-identifier", "device-1234"}, d("*.example.com")}},
-		{Kind: "ord", En: "hdta", IDs: []ID{{"permanent-identifier", "*.device-1234"}}}, // C13-F4
+		{Kind: "ord", En: "hdta", IDs: []ID{{"permanent-identifier", "*.device-1234"}}}, // C13-F4 (fixed in 77ebdfa)
 		{Kind: "ord", En: "d", IDs: []ID{{"ip", "10.0.0.1"}, d("example.com")}},
 		{Kind: "ord", En: "hdt", IDs: nil},
 	}
